@@ -108,9 +108,28 @@ func runVec(c *ev.Ctx, fcSide bool) {
 	c.Parallel(nD, 0, func(i int) {
 		r := c.Rand("dag", i)
 		plans := cons.RandomPlans(r, 1, 10, i%5 == 4, cons.CheatAny)
+		large := i%12 == 11
+		if large {
+			// more validators than bits in a machine word; the forking validators are the lightest ones, i.e. the
+			// ones with the highest canonical indexes
+			nv := 66 + r.Intn(14)
+			plans = cons.RandomPlans(r, 1, -nv, false, cons.CheatNone)
+			for k := range plans[0].Weights {
+				plans[0].Weights[k] = 2
+				plans[0].Lag[k] = 0
+				if k >= 64-r.Intn(3) {
+					plans[0].Weights[k] = 1
+					plans[0].Cheaters[k] = true
+				}
+			}
+			c.Count("dags_with_more_than_64_validators", 1)
+		}
 		plan := plans[0]
 		n := len(plan.IDs)
 		cfg := &cons.GenCfg{Plans: plans, Plain: true, EventsPer: 10 + r.Intn(maxEv-9), MinParents: r.Intn(2), MaxParents: 2 + r.Intn(n+1), ForkProb: 0.05 + r.Float64()*0.4}
+		if large {
+			cfg.EventsPer, cfg.MinParents, cfg.MaxParents, cfg.ForkProb = 160+r.Intn(60), 2, 8, 0.5
+		}
 		if r.Intn(3) == 0 {
 			cfg.PartProb = 0.03
 		}
